@@ -75,11 +75,11 @@ def catalogue():
             e.append(("numpy." + name, getattr(numpy, name)))
         add(name, e, mpf, real_pts, cplx_pts)
 
-    C = [0.5 + 0.25j, -0.75 + 1.5j]
+    C = [0.5 + 0.25j, -0.75 + 1.5j, 0.3 + 2.5j, -1.25 - 4.0j]      # incl. imaginary parts beyond pi/2 and pi
     std("exp", mp.exp, [0.0, -1.25, 0.75, 2.0], C)
-    std("expm1", mp.expm1, [1e-3, -0.5, 1.5], C)
+    std("expm1", mp.expm1, [1e-3, -0.5, 1.5, 1.5e-13, -2e-15], C)
     std("log", mp.log, [0.5, 1.0, 3.0], C)
-    std("log1p", mp.log1p, [-0.5, 1e-3, 2.0], C)
+    std("log1p", mp.log1p, [-0.5, 1e-3, 2.0, 1.5e-13, -2e-15], C)
     std("sqrt", mp.sqrt, [0.25, 1.0, 2.0, 9.0], C)
     std("sin", mp.sin, [0.0, 0.7, -2.5], C)
     std("cos", mp.cos, [0.0, 0.7, -2.5], C)
@@ -87,13 +87,13 @@ def catalogue():
     std("arcsin", mp.asin, [0.0, 0.6, -0.3], [0.25 + 0.5j])
     std("arccos", mp.acos, [0.0, 0.6, -0.3], [0.25 + 0.5j])
     std("arctan", mp.atan, [0.0, 0.75, -2.0], [0.25 + 0.5j])
-    std("sinh", mp.sinh, [0.0, 0.5, -1.5], C)
-    std("cosh", mp.cosh, [0.0, 0.5, -1.5], C)
+    std("sinh", mp.sinh, [0.0, 0.5, -1.5, 4.0], C)
+    std("cosh", mp.cosh, [0.0, 0.5, -1.5, 4.0], C)
     std("tanh", mp.tanh, [0.0, 0.5, -1.5], C)
     std("reciprocal", lambda z: 1 / z, [0.5, -2.0, 4.0], C)
     std("square", lambda z: z * z, [0.0, 0.5, -3.0], C)
     std("negative", lambda z: -z, [0.0, 1.5], C)
-    for r in (2, 3, -1, -2, 0, 1):
+    for r in (2, 3, -1, -2, 0, 1, 4, 5, 6, 8, -3, 11):
         add("pow_int(%d)" % r, [("x**%d" % r, lambda x, r=r: x ** r), ("algopy.pow", lambda x, r=r: algopy.pow(x, r))],
             lambda z, r=r: z ** r, [0.5, -2.0, 3.0], C)
     for r in (0.5, -1.5, 2.5, numpy.float64(1.25)):
@@ -177,11 +177,18 @@ def build(pats, D, base_pts, P, scale, layout):
 
 
 def expected_coeffs(C, F, scale, D):
-    """y_d = sum_k C[d][k] scale^k F_k  and the magnitude sum_k |C[d][k] scale^k F_k|"""
+    """y_d = sum_k C[d][k] scale^k F_k  and the magnitude sum_k |C[d][k] scale^k F_k|
+    (plus, for d >= 1, a floor relative to the size of the coefficients involved: terms that cancel exactly in exact
+    arithmetic - odd/even functions at 0 - leave rounding noise of that order; y_0 = F_0 has no such floor)"""
     ys, ms = [], []
+    fmax = max(abs(f) for f in F[:D]) if D else 0.0
     for d in range(D):
         terms = [C[d][k] * (scale ** k) * F[k] for k in range(d + 1)]
-        ys.append(sum(terms)); ms.append(sum(abs(t) for t in terms))
+        ys.append(sum(terms))
+        m = sum(abs(t) for t in terms)
+        if d >= 1:
+            m += 1e-4 * fmax * sum(abs(C[d][k] * (scale ** k)) for k in range(d + 1))
+        ms.append(m)
     return ys, ms
 
 
@@ -220,7 +227,7 @@ def check_fn(rep, fn, pats, D, P, scale, layout, base_pts, kind):
                 rep.case((fn["name"], ename, complex(x0), tuple(pat), complex(scale), D), nontrivial=(D >= 2 and nz))
                 for d in range(D):
                     got = yd[d, p, e]
-                    tol = 1e-9 * ms[d] + 1e-12
+                    tol = 1e-9 * ms[d] + 1e-18
                     if not (abs(got - ys[d]) <= tol):
                         bad.append({"d": d, "p": p, "x0": str(x0), "pattern": pat, "scale": str(scale),
                                     "got": str(got), "expected": str(ys[d])})
@@ -269,7 +276,7 @@ def run(rep, tier, seed):
             if fn["cplx"]:
                 # complex base point with real higher coefficients, and complex higher coefficients c*h
                 check_fn(rep, fn, pats, D, 2, 1, "vec", fn["cplx"], "complex base")
-                check_fn(rep, fn, pats, D, 2, 0.5 - 1j, "vec", fn["cplx"] + [fn["real"][-1] + 0j], "complex coeffs")
+                check_fn(rep, fn, pats, D, 2, 0.5 - 1j, "vec", fn["cplx"] + [fn["real"][1] + 0j], "complex coeffs")
     # x(t)**y(t), both polynomials, at x_0 = 1 where the result is rational (spec value exact)
     Dp = 4 if quick else 5
     res = tlc_ok(run_tlc("Gen_TPS", GEN_CFG % (Dp, "V3", "powxy", 2 if quick else 3), workers=1, timeout=1200), "Gen_TPS powxy")
